@@ -50,6 +50,12 @@ class Ctx:
         self.work = os.path.join(VERIF, ".work", "%s.%d" % (pid, os.getpid()))
         shutil.rmtree(self.work, ignore_errors=True)
         os.makedirs(self.work)
+        # everything a check spawns (go, TLC, SANY, Apalache) keeps its temporary files inside the work directory, which is removed
+        # at the end: nothing is left behind in /tmp
+        self.tmp = os.path.join(self.work, "tmp")
+        os.makedirs(self.tmp)
+        os.environ["TMPDIR"] = self.tmp
+        os.environ["JVM_ARGS"] = (os.environ.get("JVM_ARGS", "") + " -Djava.io.tmpdir=" + self.tmp).strip()
         os.makedirs(EVIDENCE, exist_ok=True)
         os.makedirs(REPLAYS, exist_ok=True)
         self.states = 0
@@ -174,7 +180,7 @@ class Ctx:
         return d
 
     def _run_tlc(self, d, module, cfg, workers, timeout, extra=(), jvm=()):
-        cmd = ["java", "-XX:+UseParallelGC", "-Xss64m"] + list(jvm) + [
+        cmd = ["java", "-XX:+UseParallelGC", "-Xss64m", "-Djava.io.tmpdir=" + self.tmp] + list(jvm) + [
             "-cp", TLA_JAR, "tlc2.TLC", "-metadir", os.path.join(d, "meta"),
             "-workers", str(workers), "-config", cfg] + list(extra) + [module]
         t = time.time()
